@@ -37,7 +37,10 @@ LATER call trips over); (3) a change that only manifests under a documented but 
 everyday use does not touch; (4) state that ends up in, or is read from, an object the APPLICATION owns or re-uses between calls;
 (5) an override in a subclass (TypedNode / TypedTree / FileSystemTree) drifting from its base-class behaviour; (6) the interplay of two
 public features (clones + sort, filter + clones, move + metadata, copy + custom ids, ...), or edge positions (first / last sibling, top
-level, empty tree, single node, deepest level). Avoid single-token flips of the kind listed below.
+level, empty tree, single node, deepest level); (7) a "performance optimisation" (a cache, an early exit, a shared default
+object, lazy evaluation, `__slots__`/attribute tricks) whose invalidation or aliasing is subtly incomplete; (8) a changed `except`
+clause, a reordered validation, or an exception of an unexpected class coming out of a user callback. Avoid single-token flips of the
+kind listed below.
 Prefer places and mechanisms DIFFERENT from these, which were already tried for this property:
 """ + "".join(f"  - {t}\n" for t in tried.get(pid, [])) + f"""
 Deliver, in {out}/:
